@@ -29,6 +29,9 @@ def aggregate(rows):
 
 class C07(core.Check):
     pid = 'C07'
+    unproved = [
+        'that both simulators maintain StoreInv (complete windows + at most one partial candle of the forming window) is decided by the engine correspondence with data-candle gates and by the get_candles oracle on real sessions',
+    ]
     gen_keys = ['jesse/services/candle.py:generate_candle_from_one_minutes', 'jesse/modes/backtest_mode.py:_get_fixed_jumped_candle']
     rule = ('translator cross-check of generate_candle_from_one_minutes and _get_fixed_jumped_candle; correspondence of the '
             'store model (get_candles / get_current_candle on stores holding complete windows, a forming window, a stale '
@@ -119,7 +122,7 @@ class C07(core.Check):
     def sessions(self, boost):
         r = self.rng
         out = []
-        for _ in range(self.budget(24, 400, boost)):
+        for _ in range(self.budget(60, 400, boost)):
             nsym = r.choice([1, 1, 2])
             syms = ['BTC-USDT', 'ETH-USDT'][:nsym]
             ttf = r.choice(['1m', '1m', '3m', '5m', '15m'])
@@ -262,7 +265,7 @@ class C07(core.Check):
                 res.sample(dict(desc, observations=stats['obs'], forming_seen=stats['forming'], fills=fills))
         # the candle-generation helper
         r = self.rng
-        for _ in range(self.budget(20, 300, boost)):
+        for _ in range(self.budget(50, 300, boost)):
             tf = r.choice(['3m', '5m', '15m'])
             m = TFM[tf]
             n = r.randint(0, 4 * m)
